@@ -43,8 +43,8 @@ void generate(Rng& r, Workload& w, int tier) {
             else w.ops.push_back({t, S_TRY, d, r.range(0, 2)});
         }
     } else {
-        int nt = int(r.range(1, 4));
-        w.cfg = {kind, r.range(1, tier ? 6 : 5)};
+        int nt = int(r.range(1, tier ? 6 : 4));
+        w.cfg = {kind, r.range(1, tier ? 8 : 5)};
         for (int i = 0; i < nt; ++i) w.ops.push_back({int64_t(r.below(64))});
     }
 }
@@ -203,10 +203,10 @@ void run_semaphore(const Workload& w, Result& res) {
 
 template <class Barrier>
 void run_barrier(const Workload& w, Result& res, const char* name) {
-    const int G = int(1 + sim::modn(sim::cfg_at(w, 1) - 1, 6));
+    const int G = int(1 + sim::modn(sim::cfg_at(w, 1) - 1, 8));
     int nt = int(w.ops.size());
     if (nt < 1) nt = 1;
-    if (nt > 4) nt = 4;
+    if (nt > 6) nt = 6;
     std::vector<int64_t> flags;
     for (int t = 0; t < nt; ++t) flags.push_back(size_t(t) < w.ops.size() && !w.ops[size_t(t)].empty() ? w.ops[size_t(t)][0] : 0);
     auto bar = std::make_unique<Barrier>(size_t(nt));
